@@ -253,13 +253,14 @@ static void check_simplify(Ctx& cx, const CaseP& c) {
       const P& a = res[(k + m - 1) % m]; const P& b = res[(k + 1) % m];
       if (a == b) { if (!small) cnt("simplify_vertex_skipped_neighbours_coincide"); continue; }
       int s = cmp_dist_line(res[k], a, b, e);
-      if (s < 0) { if (!bad) { bad = true; badk = k; } }
-      else if (s == 0 && !small) cnt("simplify_tie_vertex_kept_at_exactly_eps");
+      // the statement says "farther than epsilon": a kept vertex at distance exactly epsilon is removable. In these scopes all
+      // squared distances are exactly representable in double, so the library's own comparison is exact and ties are judged too.
+      if (s <= 0) { if (!bad) { bad = true; badk = k; } if (s == 0 && !small) cnt("simplify_tie_vertex_kept_at_exactly_eps"); }
     }
   }
   if (small) { if (bad) cnt("simplify_lt4_removable_vertex_left_observed"); return; }
   cnt("simplify_ge4_clause_evaluated");
-  if (bad) cx.viol("simplify_removable_left", "result " + ps(res) + ": vertex " + std::to_string(badk) + " (" + std::to_string(res[badk].x) + "," + std::to_string(res[badk].y) + ") is closer than eps to the line through its neighbours");
+  if (bad) cx.viol("simplify_removable_left", "result " + ps(res) + ": vertex " + std::to_string(badk) + " (" + std::to_string(res[badk].x) + "," + std::to_string(res[badk].y) + ") is not farther than eps from the line through its neighbours");
 }
 
 // ------------------------------------------------------------------------------------------ RamerDouglasPeucker
